@@ -8,6 +8,7 @@ dispatch table: `SophiaModel.Gen.SparqlDispatch`, regenerated from `ExecState::s
 to the real engine.  Lemmas: SophiaProofs/Lemmas/Sparql.lean.
 -/
 import SophiaProofs.Lemmas.Sparql
+import SophiaProofs.Lemmas.SparqlExpr
 import SophiaModel.Gen.SparqlDispatch
 
 namespace SophiaProofs.C13
@@ -448,6 +449,89 @@ theorem dev_from_unmerged :
     let qq := Query.select (some ⟨["x:g1".toList, "x:g2".toList], none⟩) (.project (.bgp [spo]) ["s".toList])
     (∃ r, Sparql.query D qq = .rows r ∧ r.rows.length = 2) ∧
     (∃ Ω, evalQuery D qq = .rows ["s".toList] Ω ∧ Ω.length = 1) := ⟨⟨_, rfl, rfl⟩, ⟨_, rfl, rfl⟩⟩
+
+/-! ## Value-level expressions: the two evaluators agree (proved, not assumed) -/
+
+/-- **expr_agree.**  On every row that binds regular terms, every expression of the modelled core except
+IN — variables, constants, BOUND, `=`, sameTerm, `<` `>` `<=` `>=`, `+ - *`, unary ±, `! && ||`, IF,
+COALESCE, STR, LANG, DATATYPE, isIRI, isBlank, isLiteral, arbitrarily nested — is evaluated alike by
+expression.rs / value.rs / function.rs (as transcribed) and by SPARQL 1.1 §17: both raise an error, or
+both yield the same term with the same value and the same effective boolean value.  "Regular" (`Agree`)
+excludes only literals with an invalid xsd:integer / xsd:boolean lexical form; `expr_agree_hyps_needed`,
+`dev_ebv_illtyped` and `dev_in_strict` show that neither hypothesis can be dropped. -/
+theorem expr_agree {b : Binding} {μ : Mu} (hr : RelRow b μ) (hb : RowAgree b) (e : Expr)
+    (hn : noIn e = true) (hc : ConstsAgree e) : OptRel (Sparql.evalExpr b e) (SparqlSpec.evalExpr μ e) :=
+  SparqlL.expr_agree hr hb e hn hc
+
+/-- the unconditional statement (all expressions, all rows) -/
+def ExprAgreeFull : Prop :=
+  ∀ (e : Expr) (b : Binding) (μ : Mu), RelRow b μ → OptRel (Sparql.evalExpr b e) (SparqlSpec.evalExpr μ e)
+
+/-- … is false: `!"1a"^^xsd:integer` is an error in the engine and `true` in §17 (finding C13-ebv-illtyped-integer) -/
+theorem expr_agree_hyps_needed : ¬ ExprAgreeFull := by
+  intro h
+  have := h (.not (.const (.lit "1a".toList xsdInteger))) {} [] (fun _ => rfl)
+  have e1 : Sparql.evalExpr {} (.not (.const (.lit "1a".toList xsdInteger))) = none := by decide
+  have e2 : SparqlSpec.evalExpr [] (.not (.const (.lit "1a".toList xsdInteger))) = some (boolTerm true) := by decide
+  rw [e1, e2] at this
+  exact this
+
+/-- **filter_bind_agree.**  consequently FILTER decides alike and BIND binds the same term (or leaves the
+variable unbound alike), and the extended row again binds regular terms only -/
+theorem filter_bind_agree {b : Binding} {μ : Mu} (hr : RelRow b μ) (hb : RowAgree b) (e : Expr)
+    (hn : noIn e = true) (hc : ConstsAgree e) (x : Str) :
+    filterKeeps e b = holds e μ ∧ (Sparql.evalExpr b e).map ER.intoTerm = SparqlSpec.evalExpr μ e ∧
+    RowAgree (extendRow x e b) := SparqlL.filter_bind_agree hr hb e hn hc x
+
+/-- **integer_lexical.**  the value layer reads integers like XSD: every xsd:integer lexical form is parsed
+by `isize::from_str` / `BigInt::from_str` (as transcribed) with the XSD value, and the lexical form the
+engine prints for a computed integer is read back as that integer by both -/
+theorem integer_lexical :
+    (∀ lex i, parseInteger lex = some i → rustParseInt lex = some i) ∧
+    (∀ k : Int, parseInteger (toString k).toList = some k ∧ rustParseInt (toString k).toList = some k) :=
+  ⟨rustParseInt_of_valid, fun k => ⟨parseInteger_toString k, rustParseInt_toString k⟩⟩
+
+/-- **filter_bind_correct.**  `{ BGP FILTER(e₁) BIND(e₂ AS ?x) … }` with value-level expressions, over a
+duplicate-free dataset of regular terms, evaluates to exactly the algebra's solutions: related rows in
+the same order.  No `ExprOK` hypothesis — the rows that can arise bind terms of the dataset or values
+computed by the expressions, both regular (`bgp_rows_agree`, `filter_bind_agree`). -/
+theorem filter_bind_correct (D : List Quad) (hN : DataNodup D) (hR : RegularData D) {p : GP} (hp : Simple p)
+    (g : Option Term) :
+    ∃ r Ω, select D p [g] none = .ok r ∧ eval D p (activeGraph D [g]) = .ok Ω ∧
+      List.Forall₂ (fun b μ => RelRow b μ ∧ RowAgree b) r.rows Ω ∧ ∀ y, y ∈ r.vars → y ∈ inScope p :=
+  simple_correct D hN hR hp g
+
+/-- regular terms: valid integers of any size, strings, language strings, `true`/`false`, unknown datatypes,
+IRIs, blank nodes, quoted triples of these -/
+example : Regular (.triple (iriT "x:a") (iriT "x:p") (.lit "-9223372036854775809".toList xsdInteger)) ∧
+    Regular (.lit "x".toList "x:dt".toList) ∧ Regular (.lang "a".toList "EN".toList) ∧
+    Regular (.lit "false".toList xsdBoolean) :=
+  ⟨⟨trivial, trivial, fun _ => ⟨-9223372036854775809, by decide⟩, fun h => absurd h (by decide)⟩,
+   ⟨fun h => absurd h (by decide), fun h => absurd h (by decide)⟩, trivial,
+   ⟨fun h => absurd h (by decide), fun _ => Or.inr rfl⟩⟩
+
+/-- `{ ?s ?p ?o FILTER(?o + 1 > 2 && STR(?s) = "x:a") BIND(IF(?o <= 5, ?o * 2, -?o) AS ?z) }` -/
+example : Simple (.extend (.filter
+    (.and (.cmp .gt (.arith .add (.var "o".toList) (.const (intTerm 1))) (.const (intTerm 2)))
+          (.eq (.call .str (.var "s".toList)) (.const (.lit "x:a".toList xsdString))))
+    (.bgp [spo])) "z".toList
+    (.ite (.cmp .le (.var "o".toList) (.const (intTerm 5))) (.arith .mul (.var "o".toList) (.const (intTerm 2)))
+      (.neg (.var "o".toList)))) :=
+  .extend _ _ rfl
+    ⟨⟨trivial, regular_agree ⟨fun _ => ⟨5, by decide⟩, fun h => absurd h (by decide)⟩⟩,
+     ⟨trivial, regular_agree ⟨fun _ => ⟨2, by decide⟩, fun h => absurd h (by decide)⟩⟩, trivial⟩
+    (by decide)
+    (.filter _ rfl
+      ⟨⟨⟨trivial, regular_agree ⟨fun _ => ⟨1, by decide⟩, fun h => absurd h (by decide)⟩⟩,
+        regular_agree ⟨fun _ => ⟨2, by decide⟩, fun h => absurd h (by decide)⟩⟩,
+       ⟨trivial, regular_agree ⟨fun h => absurd h (by decide), fun h => absurd h (by decide)⟩⟩⟩
+      (.bgp _))
+
+example : RegularData [q (iriT "x:a") (iriT "x:p") (.lit "100000000000000000000".toList xsdInteger) none] := by
+  intro qd hq
+  simp only [List.mem_singleton] at hq
+  subst hq
+  exact ⟨trivial, trivial, fun _ => ⟨100000000000000000000, by decide⟩, fun h => absurd h (by decide)⟩
 
 /-! ## The hypotheses are satisfiable by non-trivial values -/
 
